@@ -114,7 +114,15 @@ def body_year(case):
                 lab("leap_day")
             if d == L:
                 lab("month_end")
-        # rejected day numbers
+                # other calendar queries on the same date are interleaved with the constructions
+                # (day of year, fractional year): they must leave nothing behind that changes
+                # which day numbers the next constructions accept
+                Epoch.get_doy(y, m, d), e.doy(), e.leap()
+        # rejected day numbers (for February after a day-of-year query on a *leap* year: whatever
+        # that query leaves behind must not make 29 February acceptable here)
+        if m == 2:
+            ly = next(yy for yy in range(max(y, -4708), y + 9) if cal.is_leap(yy))
+            Epoch.get_doy(ly, 3, 1)
         for d in (0, L + 1, -1, L + 2):
             if y == 1582 and m == 10:
                 pass
